@@ -35,6 +35,8 @@ VARIANTS = {
     # libFuzzer objects
     "fuzz": dict(cc="clang", cflags=["-O1", "-g", "-fsanitize=fuzzer-no-link"] + SAN,
                  ldflags=SAN),
+    # measurement aid only (tools/coverage.py, VERIF_COV=1): gcov line/function coverage of the library
+    "cov": dict(cc="gcc", cflags=["-O0", "-g", "--coverage", "-DCIMX_COV"], ldflags=["--coverage"]),
     # triage aid only: debug asserts on (never part of a verdict)
     "dbg": dict(cc="clang", cflags=["-O1", "-g", "-UNDEBUG"] + SAN, ldflags=SAN),
 }
@@ -82,6 +84,8 @@ def _run(cmd, **kw):
 def build(variant="asan", quiet=True):
     """Returns the build directory (containing libcimba.a, cimx, and fuzzers)."""
     os.makedirs(BUILD_ROOT, exist_ok=True)
+    if os.environ.get("VERIF_COV") and variant != "fuzz":
+        variant = "cov"
     hsh = tree_hash(variant)
     bdir = os.path.join(BUILD_ROOT, "%s-%s" % (variant, hsh))
     lock = open(os.path.join(BUILD_ROOT, ".lock-%s" % variant), "w")
